@@ -1981,17 +1981,30 @@ package exec
 //@   requires len(args) == 1 && args[0] != nil
 //@   ensures err == nil && isVStr(r)
 
+//@ macro TRS = toStr(args[0])
+//@ macro TRF = toStr(args[1])
+//@ macro TRT = toStr(args[2])
 //@ func translate(context, args) (r, err)
 //@   property C07 C13 C15
-//@   uses values
+//@   uses values strfn strbuilder
 //@   requires okargs(args)
 //@   ensures (err != nil) == (len(args) != 3)                                   @never-fails-on-argument-values
-//@   ensures err == nil ==> isVStr(r)
+//@   ensures err == nil ==> r == VStr(trPre($TRS$, runeCount($TRS$), $TRF$, $TRT$))      @each-character-by-its-first-occurrence
 //@   loop 0
-//@     invariant true
+//@     invariant 0 - 1 <= #k && #k <= runeCount($TRS$) - 1
+//@     invariant len(from) == runeCount($TRF$) && len(to) == runeCount($TRT$) && fresh(from) && fresh(to)
+//@     invariant forall i Int :: {from[i]} {runeAt($TRF$, i)} 0 <= i && i < len(from) ==> from[i] == runeAt($TRF$, i)
+//@     invariant forall i Int :: {to[i]} {runeAt($TRT$, i)} 0 <= i && i < len(to) ==> to[i] == runeAt($TRT$, i)
+//@     invariant sbstr(deref(addrof_ret)) == trPre($TRS$, #k + 1, $TRF$, $TRT$)
+//@     decreases runeCount($TRS$) - #k
 //@   loop 1
 //@     invariant 0 - 1 <= #k && #k < len(from) || (len(from) == 0 && #k == 0 - 1)
-//@     invariant 0 - 1 <= index && index <= #k
+//@     invariant index == 0 - 1
+//@     invariant forall i Int :: {from[i]} {runeAt($TRF$, i)} 0 <= i && i <= #k ==> from[i] != r
+//@     invariant len(from) == runeCount($TRF$) && len(to) == runeCount($TRT$) && fresh(from) && fresh(to)
+//@     invariant forall i Int :: {from[i]} {runeAt($TRF$, i)} 0 <= i && i < len(from) ==> from[i] == runeAt($TRF$, i)
+//@     invariant forall i Int :: {to[i]} {runeAt($TRT$, i)} 0 <= i && i < len(to) ==> to[i] == runeAt($TRT$, i)
+//@     invariant sbstr(deref(addrof_ret)) == trPre($TRS$, #outer + 1, $TRF$, $TRT$) && r == runeAt($TRS$, #outer + 1) && 0 <= #outer + 1 && #outer + 1 < runeCount($TRS$)
 //@     decreases len(from) - #k
 
 // ---------- node functions (exec/function.go): XPath 1.0 section 4.1 / 4.3 ----------
